@@ -678,6 +678,8 @@ def shaped_backend():
 
     def transpose(t, perm=None):
         perm = tuple(range(t.ndim))[::-1] if perm is None else tuple(perm)
+        if all(isinstance(p_, int) and -t.ndim <= p_ < t.ndim for p_ in perm):
+            perm = tuple(p_ % t.ndim for p_ in perm)  # numpy counts negative axes from the end
         if sorted(perm) != list(range(t.ndim)):
             raise ValueError(f"transpose of shape {t.shape} with axes {perm}")
         if perm == tuple(range(t.ndim)):
